@@ -1289,6 +1289,25 @@ fn part_c_probes(root: &Path, st: &mut Stats) {
     }
 }
 
+/// the chain of function types of a binding type: (extern ABI, number of parameters) per level, following `Option<fn>` return types
+fn fn_levels(t: &syn::Type, out: &mut Vec<(String, usize)>) {
+    let bf = match t {
+        syn::Type::Path(tp) => {
+            let last = tp.path.segments.last().unwrap();
+            if last.ident != "Option" { return; }
+            match &last.arguments {
+                syn::PathArguments::AngleBracketed(ab) => match ab.args.first() { Some(syn::GenericArgument::Type(syn::Type::BareFn(bf))) => bf, _ => return },
+                _ => return,
+            }
+        }
+        syn::Type::BareFn(bf) => bf,
+        _ => return,
+    };
+    let abi = bf.abi.as_ref().and_then(|a| a.name.as_ref()).map(|n| n.value()).unwrap_or_else(|| "Rust".into());
+    out.push((abi, bf.inputs.len()));
+    if let syn::ReturnType::Type(_, r) = &bf.output { fn_levels(r, out); }
+}
+
 /// nested function declarators: a function / typedef / member / parameter whose type is a function returning a
 /// pointer to function written without a typedef.  Every level has its own parameter list; the Rust caller is
 /// written from the C declaration (literal argument counts, hand-written callback types), so a binding that gives
@@ -1343,8 +1362,42 @@ fn part_c_nested(args: &Args, root: &Path, st: &mut Stats) {
         let pname = format!("probe_nested_{k}");
         let get_name = format!("{n}_get");
         let cc_of = |f: &str| if f == get_name && ms_o { "win64".to_string() } else { "C".to_string() };
-        if let Some((_inv, _pred, ro)) = probe_cc(&pname, &header, &csrc, &body, CbMode::None, root, &cc_of, st) {
+        if let Some((inv, _pred, ro)) = probe_cc(&pname, &header, &csrc, &body, CbMode::None, root, &cc_of, st) {
             st.bump("nested_declarator_cases", 1);
+            // correspondence with Model/FnSig.lean: parameters and convention of every level, as the model computes them
+            // from what `from_ty` is offered (prototype, cursor arguments / ParmDecl children of the whole declaration)
+            let ccn = |ms: bool| if ms { 2 } else { 1 };
+            let reqs = vec![
+                format!("c04 sig decl=1 targs={np} cur={np} kids=0 tycc={} pcc=- same=0", ccn(ms_o)),
+                format!("c04 sig decl=1 targs={nq} cur={np} kids=0 tycc={} pcc=- same=0", ccn(ms_i)),
+                format!("c04 sig decl=0 targs={np} cur=0 kids={} tycc={} pcc={} same=1", np + nq, ccn(ms_o), ccn(ms_o)),
+                format!("c04 sig decl=0 targs={nq} cur=0 kids={} tycc={} pcc={} same=0", np + nq, ccn(ms_i), ccn(ms_o)),
+            ];
+            let ans = util::model(&reqs);
+            let level = |a: &str| -> Option<(String, usize)> {
+                let tys = a.split(' ').find_map(|t| t.strip_prefix("types="))?;
+                let cc = a.split(' ').find_map(|t| t.strip_prefix("cc="))?;
+                Some((if cc == "2" { "win64".to_string() } else { "C".to_string() }, if tys.is_empty() { 0 } else { tys.split(',').count() }))
+            };
+            let model_levels: Vec<Option<(String, usize)>> = ans.iter().map(|a| level(a)).collect();
+            if model_levels.len() == 4 && model_levels.iter().all(|l| l.is_some()) {
+                let m: Vec<(String, usize)> = model_levels.into_iter().flatten().collect();
+                let mut real_get = vec![];
+                if let Some(f) = inv.fns.iter().find(|f| f.ident == get_name) {
+                    real_get.push((f.abi.clone(), f.args.len()));
+                    if let Some(r) = &f.ret { fn_levels(r, &mut real_get); }
+                }
+                let mut real_td = vec![];
+                if let Some(t) = inv.aliases.get(&format!("{n}_td")) { fn_levels(t, &mut real_td); }
+                let mut real_cb = vec![];
+                if let Some(f) = inv.fns.iter().find(|f| f.ident == format!("{n}_take")) { if let Some((_, t)) = f.args.first() { fn_levels(t, &mut real_cb); } }
+                st.bump("nested_declarator_levels_compared", 6);
+                if real_get != m[0..2] { st.fail("correspondence", "fnsig", format!("{get_name}: Model/FnSig.lean gives the levels {:?}, the bindings have {:?} (header {header:?})", &m[0..2], real_get), &pname); }
+                if real_td != m[2..4] { st.fail("correspondence", "fnsig", format!("{n}_td: Model/FnSig.lean gives the levels {:?}, the bindings have {:?} (header {header:?})", &m[2..4], real_td), &pname); }
+                if real_cb != m[2..4] { st.fail("correspondence", "fnsig", format!("{n}_take(cb): Model/FnSig.lean gives the levels {:?}, the bindings have {:?} (header {header:?})", &m[2..4], real_cb), &pname); }
+            } else {
+                st.fail("correspondence", "fnsig", format!("no answer from the model for `c04 sig`: {ans:?}"), &pname);
+            }
             if let Some(e) = &ro.clang_err { st.fail("oracle", "generator-c-invalid", format!("nested declarators: clang rejects the generated C: {}", e.chars().take(600).collect::<String>()), &pname); continue; }
             if ro.stdout.trim() != expect {
                 st.fail("oracle", "nested-declarator", format!("header {header:?}: expected output {expect:?}, got {:?}; rustc/link error: {:?}", ro.stdout.trim(), ro.rustc_err.as_ref().map(|e| e.chars().take(600).collect::<String>())), &pname);
